@@ -358,11 +358,11 @@ func TestExec(t *testing.T) {
 	var w *world
 	for sid, s := range scheds {
 		if len(s) < 2 || len(s) > 4 || drv.Str(s[0]["ev"]) != "Cfg" {
-			t.Fatalf("schedule %d: want [Cfg, Submit (x1..3) | SubmitBatch]", sid)
+			t.Fatalf("schedule %d: want [Cfg, Submit (x1..3) | SubmitBatch | SubmitBig]", sid)
 		}
 		for _, st := range s[1:] {
-			if ev := drv.Str(st["ev"]); ev != "Submit" && !(ev == "SubmitBatch" && len(s) == 2) {
-				t.Fatalf("schedule %d: want [Cfg, Submit (x1..3) | SubmitBatch]", sid)
+			if ev := drv.Str(st["ev"]); ev != "Submit" && !((ev == "SubmitBatch" || ev == "SubmitBig") && len(s) == 2) {
+				t.Fatalf("schedule %d: want [Cfg, Submit (x1..3) | SubmitBatch | SubmitBig]", sid)
 			}
 		}
 		n, v := drv.Num(s[0]["N"]), drv.Num(s[0]["V"])
@@ -394,6 +394,8 @@ func TestExec(t *testing.T) {
 		case drv.Str(s[1]["ev"]) == "SubmitBatch":
 			tr.Emit(drv.Step{"ev": "SubmitBatch", "c": c})
 			err = w.runBatch(tr, parseCase(c), c["pat"].(map[string]any))
+		case drv.Str(s[1]["ev"]) == "SubmitBig":
+			err = w.runBig(tr, sid, c)
 		case len(s) == 2 && drv.Str(c["alt"]) != "foreignSig":
 			tr.Emit(drv.Step{"ev": "Submit", "c": c})
 			err = w.run(tr, parseCase(c))
